@@ -346,8 +346,9 @@ def main():
                 new_shape.append(f)
                 struct = set(dflt) | {'C10'}
             else:
-                sem = {'C10'}
-                struct = set(dflt) - {'C10'}
+                # possible panic: C10 when the function is on the build path, else the property the function serves
+                sem = {'C10'} if ('C10' in dflt or not dflt) else set(dflt)
+                struct = set(dflt) - sem
         else:
             sem = ((set(dflt) | set(f.get('pragma') or [])) - {'C10'}) or {'C10'}
         if pid in sem:
